@@ -34,6 +34,7 @@ def main():
         demo_dir = meta.get("demo_pkg_dir", "").strip("/")
         demo_run = meta.get("demo_run", "")
         demo_run = re.sub(r"^cd \S+ && ", "", demo_run)
+        demo_run = re.sub(r"^\s*export [^;&]*(&&|;)\s*", "", demo_run)
         demo_run = re.sub(r"(export )?GOFLAGS=\S+ |(export )?GOPROXY=\S+ |; ", "", demo_run)
         # with patch
         shutil.copy(sd + "/zz_seed_demo_test.go", os.path.join(root, "repo", demo_dir, "zz_seed_demo_test.go"))
